@@ -428,6 +428,25 @@ Section Json.
         end
     end.
 
+  (** the domain of the JSON round-trip theorem.  [fdom] says for which
+      binary64 values the float text oracle is assumed to behave (finite, and
+      not in [2^52, 1e21) where ugorji writes an integer literal). *)
+  Variable fdom : N -> bool.
+
+  Fixpoint json_dom (v : value) : bool :=
+    match v with
+    | VNull => true
+    | VBool _ => true
+    | VInt k z => int_in_range k z
+    | VFloat f => float_is_nan_or_inf f || fdom f
+    | VStr s => utf8_valid s
+    | VBin _ => true
+    | VList l => forallb json_dom l
+    | VDict d =>
+        keys_nodup (map fst d)
+        && forallb (fun kv => utf8_valid (fst kv) && json_dom (snd kv)) d
+    end.
+
   Definition js_fuel_for (bs : bytes) : nat := S (length bs + length bs).
 
   Definition js_decode_raw (bs : bytes) : jres := jdec max_nesting (js_fuel_for bs) bs.
